@@ -199,8 +199,12 @@ def shard_body(arg):
                     # (what it is after - a reference taken through a stale pointer on 3.9 / 3.10 - shows as a crash in
                     # about one run of 6000 extractions in three)
                     n_it = 2500 if arg["stress"] <= 1000 else 20000
+                if variant == "loop" and interp in ("3.9", "3.10"):
+                    # (since the F79 repair the 3.9 / 3.10 inspector resolves a foreign frame's slots through the collector's
+                    # object list: ~27 ms per extraction of a running thread. Bounded by count, not by the clock.)
+                    n_it = min(n_it, 8000)
                 try:
-                    res = ws[interp].request({"op": "threads.stress", "iterations": n_it, "variant": variant}, timeout=600)
+                    res = ws[interp].request({"op": "threads.stress", "iterations": n_it, "variant": variant}, timeout=2400)
                 except WorkerDied as ex:
                     out.violation("interpreter %s DIED (exit %r) in the stress run (%s)" % (interp, ex.returncode, variant),
                                   {"stress": arg["stress"], "variant": variant}, interp)
